@@ -49,13 +49,17 @@ Definition parts (nseq x : nat) : list (list nat) := part (nseq / 2) (Z.of_nat x
 Definition ways0 (pt : list nat) : Q :=
   multinom3 (cnt 0 pt) (cnt 1 pt) (cnt 2 pt) * qpow 2 (cnt 1 pt).
 
-(** exp(BetaBinomln(i,2,a,b)), i = 0,1,2:  C(2,i) B(i+a, 2-i+b) / B(a,b)  as rising factorials *)
+(** exp(BetaBinomln(i,2,a,b)), i = 0,1,2:  C(2,i) B(i+a, 2-i+b) / B(a,b)  as rising factorials
+    (fractions reduced as we go: only the size of the numerals changes) *)
 Definition bb_probs (p F : Q) : Q * Q * Q :=
-  let r := (1 - F) / F in
-  let a := p * r in
-  let b := (1 - p) * r in
-  let dn := (a + b) * (a + b + 1) in
-  (b * (b + 1) / dn, 2 * a * b / dn, a * (a + 1) / dn).
+  let r := Qred ((1 - F) / F) in
+  let a := Qred (p * r) in
+  let b := Qred ((1 - p) * r) in
+  let dn := Qred ((a + b) * (a + b + 1)) in
+  (Qred (b * (b + 1) / dn), Qred (2 * a * b / dn), Qred (a * (a + 1) / dn)).
+
+(** p = (2 * part.count(2) + part.count(1)) / (2 * len(part)) *)
+Definition pfreq (pt : list nat) : Q := Qred (qnat (2 * cnt 2 pt + cnt 1 pt) / qnat (2 * length pt)).
 
 (** one term of part_inbreeding_probability before normalisation *)
 Definition ways_inb (F : Q) (pt : list nat) : Q :=
@@ -63,11 +67,10 @@ Definition ways_inb (F : Q) (pt : list nat) : Q :=
   let sm := list_sum pt in
   if (sm =? 0)%nat || (sm =? 2 * n)%nat then 1
   else
-    let p := qnat (2 * cnt 2 pt + cnt 1 pt) / qnat (2 * n) in
-    match bb_probs p F with
+    match bb_probs (pfreq pt) F with
     | (p00, p01, p11) =>
-      multinom3 (cnt 0 pt) (cnt 1 pt) (cnt 2 pt)
-      * qpow p00 (cnt 0 pt) * qpow p01 (cnt 1 pt) * qpow p11 (cnt 2 pt)
+      Qred (multinom3 (cnt 0 pt) (cnt 1 pt) (cnt 2 pt)
+            * qpow p00 (cnt 0 pt) * qpow p01 (cnt 1 pt) * qpow p11 (cnt 2 pt))
     end.
 
 Definition normalise (ws : list Q) : list Q :=
@@ -271,32 +274,38 @@ Section LowPassFunc.
   Variable sim : list nat -> tens d.
 
   Definition pnc_vecs : list (list Q) := map (fun p => nocall_1D (p_st p) (p_nseq p) (p_F p)) pops.
-  Definition pnc_at (idx : list nat) : Q := prod_at pnc_vecs idx.
-  (** use_sim_mat = prob_nocall_ND > sim_threshold *)
-  Definition use_sim (idx : list nat) : bool := negb (Qle_bool (pnc_at idx) thr).
-
   (** numpy.prod over ALL populations; each proj_mat is multiplied by this same number *)
   Definition pe_tot : Q := Qred (qprod (map (fun p => enough (p_st p) (p_nseq p) (p_nsub p)) pops)).
-  Definition proj_mat_scaled (p : pop) : list (list Q) :=
-    map (map (fun e => Qred (pe_tot * e))) (proj_matrix (p_nseq p) (p_nsub p) (p_F p)).
+
+  (** the pieces, as functions of the precalculated no-call vectors [vecs] and enough-covered factor [pe]
+      (low_cov_precalc_GATK_multisample computes them once) *)
+  (** use_sim_mat = prob_nocall_ND > sim_threshold *)
+  Definition use_sim_v (vecs : list (list Q)) (idx : list nat) : bool := negb (Qle_bool (prod_at vecs idx) thr).
+  Definition proj_mat_scaled_v (pe : Q) (p : pop) : list (list Q) :=
+    map (map (fun e => Qred (pe * e))) (proj_matrix (p_nseq p) (p_nsub p) (p_F p)).
   Definition heterr_mat (p : pop) : list (list Q) := cem (p_st p) (p_nsub p) (p_F p).
-
   (** model * (1-use_sim_mat) * (1-prob_nocall_ND) *)
-  Definition analytic0 (model : tens d) : tens d :=
-    tmapi d (fun idx m => if use_sim idx then 0 else m * (1 - pnc_at idx)) [] model.
-
-  Definition apply_pop (ax : nat) (p : pop) (x : tens d) : tens d :=
-    tapply d ax (heterr_mat p) (p_nsub p + 1) (tapply d ax (proj_mat_scaled p) (p_nsub p + 1) x).
-
-  Definition apply_all (x : tens d) : tens d :=
-    foldi_from apply_pop 0 pops x.
-
+  Definition analytic0_v (vecs : list (list Q)) (model : tens d) : tens d :=
+    tmapi d (fun idx m => if use_sim_v vecs idx then 0 else m * (1 - prod_at vecs idx)) [] model.
+  Definition apply_pop_v (pe : Q) (ax : nat) (p : pop) (x : tens d) : tens d :=
+    tapply d ax (heterr_mat p) (p_nsub p + 1) (tapply d ax (proj_mat_scaled_v pe p) (p_nsub p + 1) x).
   (** analytic + sum_{af simulated} model[af] * sim_outputs[af] *)
-  Definition add_sims (model : tens d) (start : tens d) : tens d :=
-    tfoldi d (fun idx m acc => if use_sim idx then tadd d acc (tscale d m (sim idx)) else acc) [] model start.
+  Definition add_sims_v (vecs : list (list Q)) (model : tens d) (start : tens d) : tens d :=
+    tfoldi d (fun idx m acc => if use_sim_v vecs idx then tadd d acc (tscale d m (sim idx)) else acc) [] model start.
 
+  Definition pnc_at (idx : list nat) : Q := prod_at pnc_vecs idx.
+  Definition use_sim (idx : list nat) : bool := use_sim_v pnc_vecs idx.
+  Definition proj_mat_scaled (p : pop) : list (list Q) := proj_mat_scaled_v pe_tot p.
+  Definition analytic0 (model : tens d) : tens d := analytic0_v pnc_vecs model.
+  Definition apply_pop (ax : nat) (p : pop) (x : tens d) : tens d := apply_pop_v pe_tot ax p x.
+  Definition apply_all (x : tens d) : tens d := foldi_from apply_pop 0 pops x.
+  Definition add_sims (model : tens d) (start : tens d) : tens d := add_sims_v pnc_vecs model start.
+
+  (** the corrected model; [vecs] and [pe] are evaluated once *)
   Definition lowpass (model : tens d) : tens d :=
-    add_sims model (apply_all (analytic0 model)).
+    let vecs := pnc_vecs in
+    let pe := pe_tot in
+    add_sims_v vecs model (foldi_from (apply_pop_v pe) 0 pops (analytic0_v vecs model)).
 
   (** the plain projection of the model spectrum (no calling model): projection_matrix along every axis *)
   Definition plain_projection (x : tens d) : tens d :=
